@@ -1,0 +1,11 @@
+//go:build verif
+
+package workflow
+
+// VerifC13SetParent hangs a role tree root under a parent (the environment's
+// ParentAdapter in production; workflow.Load does this through the unexported
+// setParent). Verification harness only (build tag `verif`), used by /verif
+// property C13 so that the root role collects its channels as in production.
+func VerifC13SetParent(r Role, parent Updatable) {
+	r.setParent(parent)
+}
